@@ -246,11 +246,11 @@ KF2_PROBE_PLAN = {
 
 
 def run_readme_order(prop: str, seed: int, fixed_plan: dict | None = None) -> dict:
-    """C09 in really fresh processes with the README construction order (problem built before
-    the solver switches 64-bit mode on): uninterrupted run and interrupted run are both executed
-    with real lifetimes and that boot order, and must agree sweep by sweep and in the final state."""
+    """The property in really fresh processes with the README construction order (problem built
+    before the solver switches 64-bit mode on - a process-global flag the in-process engine
+    cannot vary): the uninterrupted run and the plan are both executed with real lifetimes
+    (kills = real SIGKILL) in that boot order and judged by the property's own oracles."""
     from . import lifetime as L
-    from .world import same_state
 
     t0 = time.time()
     root = scratch_root()
@@ -265,52 +265,56 @@ def run_readme_order(prop: str, seed: int, fixed_plan: dict | None = None) -> di
             if not ctl.ok or not plan["lifetimes"] or Q.is_shuffled(plan["world"]):
                 res["verdict"] = "skipped"
                 return res
-        for lt in plan["lifetimes"]:
-            lt.pop("crash", None)  # clean interruptions only: kills are covered by the fidelity phase
+        if prop != "C11":
+            for lt in plan["lifetimes"]:
+                lt.pop("crash", None)
         plan["readme_order"] = True
         res["plan"] = plan
         c = L.run_real(P.control_plan(plan["world"], plan["Tmax"]), os.path.join(root, "c"), x64_first=False)
-        c_end = c.hist["lifetimes"][0]["calls"][0].get("it1") if c.hist["lifetimes"][0]["calls"] else None
-        stops = [o["it"] for lt in plan["lifetimes"][:-1] for o in lt["ops"] if o["op"] == "solve_to"]
-        if c_end is None or any(k >= c_end for k in stops):
-            # the interruption points were planned against the 64-bit control; in the float32
-            # world of this boot order the uninterrupted run stops earlier - an interruption at or
-            # after its end has nothing to resume (not comparable, not a violation)
+        rctl = Q.Ctl(c)
+        if not rctl.ok:
+            res["verdict"] = "violation"
+            res["violations"] = [{"class": f"{prop}:control_run_failed:{rctl.exc}", "msg": f"README order, fresh process: fault-free run raised {rctl.exc}: {rctl.msg}"}]
+            return res
+        stops = [o["it"] for lt in plan["lifetimes"][:-1] for o in lt["ops"] if o["op"] == "solve_to" and not lt.get("crash")]
+        if any(k >= rctl.end_it for k in stops):
+            # the interruption points were planned against the control of the 64-bit-first world;
+            # here the uninterrupted run stops earlier: nothing to resume (not comparable)
             res["verdict"] = "skipped"
             return res
         b = L.run_real(plan, os.path.join(root, "r"), x64_first=False)
         res["lifetimes"] = len(plan["lifetimes"]) + 1
+        res["real_kills"] = getattr(b, "real_kills", 0)
         res["dtype"] = c.hist["lifetimes"][0]["boot"].get("values_dtype")
-        cs = {it: (v, p) for it, v, p in c.hist["lifetimes"][0]["sweeps"]}
+        if any(h["boot"].get("fallback") for h in b.hist["lifetimes"]):
+            # nothing could be restored and the lifetime started afresh *in the same process*, i.e.
+            # after a first construction had already switched 64-bit mode on: that second problem
+            # is built in another precision than the uninterrupted run's (a C20 matter) - the
+            # boot-order premise of this phase no longer holds for this plan
+            res["verdict"] = "skipped"
+            return res
+        # do the two runs compute in the same precision at all?
         cdt = {it: str(arrs["values"].dtype) for it, arrs, _ in c.sweeps[0]}
         for li, h in enumerate(b.hist["lifetimes"]):
-            rdt = {it: str(arrs["values"].dtype) for it, arrs, _ in b.sweeps.get(li, [])}
-            for it, v, p in h["sweeps"]:
-                if it in cs and cs[it] != (v, p):
-                    if cdt.get(it) != rdt.get(it):
-                        # the two runs do not even compute in the same precision
-                        res["violations"] = [
-                            {
-                                "class": f"{prop}:readme_order_precision_mismatch",
-                                "msg": f"fresh processes, problem built before the solver switches 64-bit mode on: the uninterrupted run computes in {cdt.get(it)} from its first sweep, the run resumed in lifetime {h['i']} in {rdt.get(it)} (first difference after sweep {it})",
-                                "control_dtype": cdt.get(it),
-                                "resumed_dtype": rdt.get(it),
-                            }
-                        ]
-                        res["verdict"] = "violation"
-                        return res
-                    res["violations"].append({"class": f"{prop}:readme_order_trajectory_diverged", "msg": f"fresh processes, problem built before 64-bit mode: lifetime {h['i']} differs from the uninterrupted run after sweep {it}"})
-                    break
-        fin, cfin = b.finals[-1], c.finals[0]
-        last_ops = plan["lifetimes"][-1]["ops"]
-        if fin is not None and cfin is not None and b.hist["lifetimes"][-1]["calls"] and not any(o["op"] == "solve" for o in last_ops):
-            if int(fin["iteration"]) == int(cfin["iteration"]):
-                bad = same_state(cfin, fin)
-                if bad:
-                    res["violations"].append({"class": f"{prop}:readme_order_final_state_differs", "msg": f"fields {bad} differ from the uninterrupted run"})
-            else:
-                res["violations"].append({"class": f"{prop}:readme_order_final_iteration_differs", "msg": f"resumed run ended at {int(fin['iteration'])}, uninterrupted at {int(cfin['iteration'])}"})
-        if res["violations"]:
+            for it, arrs, _ in b.sweeps.get(li, []):
+                if it in cdt and cdt[it] != str(arrs["values"].dtype):
+                    res["violations"] = [
+                        {
+                            "class": f"{prop}:readme_order_precision_mismatch",
+                            "msg": f"fresh processes, problem built before the solver switches 64-bit mode on: the uninterrupted run computes sweep {it} in {cdt[it]}, the run of lifetime {li} in {arrs['values'].dtype}",
+                            "control_dtype": cdt[it],
+                            "resumed_dtype": str(arrs["values"].dtype),
+                        }
+                    ]
+                    res["verdict"] = "violation"
+                    return res
+        V = evaluate(prop, plan, b, rctl)
+        for v in V.v:
+            v["class"] = v["class"].replace(f"{prop}:", f"{prop}:readme_order_", 1)
+            v["msg"] = "README boot order, fresh processes: " + v["msg"]
+        res["violations"] = V.v
+        res["checks"] = V.checks
+        if V.v:
             res["verdict"] = "violation"
     except HarnessError as e:
         res["verdict"] = "harness_error"
